@@ -160,19 +160,23 @@ func VH_C18_CondBits(p []int) {
 
 // vhLevelArg produces one log-level argument: a LogLevel with an arbitrary
 // 16-bit value, an int in [0,65535], or a known name.
-func vhLevelArg() (any, logLevels) {
-	switch nondetChoice(3) {
+func vhLevelArg() (arg any, mask logLevels, usable bool) {
+	switch nondetChoice(4) {
 	case 0:
 		v := nondetUint16()
-		return LogLevel(v), logLevels(v)
+		return LogLevel(v), logLevels(v), true
 	case 1:
 		v := nondetUint16()
-		return int(v), logLevels(v)
+		return int(v), logLevels(v), true
+	case 3:
+		// an unknown name, nil or a value of an unsupported type selects no
+		// level at all: the call must neither set nor clear anything
+		return []any{"bogus", nil, 3.5, ""}[nondetChoice(4)], 0, false
 	}
 	names := []string{"none", "CALLS", "Policy", "state", "DEBUG", "error", "trace", "user1", "USER10", "all"}
 	vals := []logLevels{0, 1, 2, 4, 8, 16, 32, 64, 32768, 65535}
 	k := nondetChoice(len(names))
-	return names[k], vals[k]
+	return names[k], vals[k], true
 }
 
 // p: nargs (1..2), target (0 stack, 1 condition), unset (0/1)
@@ -191,8 +195,9 @@ func VH_C18_Log(p []int) {
 	want := cfg.log.lvl
 	args := make([]any, p[0])
 	vals := make([]logLevels, p[0])
+	usable := make([]bool, p[0])
 	for k := range args {
-		args[k], vals[k] = vhLevelArg()
+		args[k], vals[k], usable[k] = vhLevelArg()
 	}
 	snap := vhSnapCfg(cfg)
 	if p[2] == 0 {
@@ -201,7 +206,10 @@ func VH_C18_Log(p []int) {
 		} else {
 			c.SetLogLevel(args...)
 		}
-		for _, v := range vals {
+		for k, v := range vals {
+			if !usable[k] {
+				continue
+			}
 			if v == 0 {
 				want = 0
 				break
@@ -218,9 +226,9 @@ func VH_C18_Log(p []int) {
 		} else {
 			c.UnsetLogLevel(args...)
 		}
-		for _, v := range vals {
-			if v == 0 {
-				continue // "none": nothing to remove
+		for k, v := range vals {
+			if v == 0 || !usable[k] {
+				continue // "none" or nothing at all: nothing to remove
 			}
 			if v == 65535 {
 				want = 0 // "all": remove everything (doc comment of unshift)
@@ -406,5 +414,42 @@ func VH_C18_FifoAux(p []int) {
 	verifAssert(s.Auxiliary() != nil, "aux-default-alloc")
 	verifAssert(s.Auxiliary().Len() == 0, "aux-default-empty")
 	vhAssertContent(s, pre.model, "content")
+	verifReach("end")
+}
+
+// The read-only switch alters nothing an observer can see: every exported
+// method that is not a mutator answers the same with the flag off and on
+// (IsReadOnly itself excepted).  p: method index, receiver variant, 0 Stack / 1 Condition
+func VH_C18_ReadOnlyTransparent(p []int) {
+	vhAnyLimit = 12
+	var name string
+	var r1, r2 []any
+	if p[2] == 0 {
+		m := vhAutoStack[p[0]]
+		name = m.name
+		verifCase(name)
+		s, cfg := vhRich(p[1], vhOptMask&^ronly)
+		call := m.prepS()
+		h := s
+		r1 = call(&h)
+		cfg.opt |= ronly
+		r2 = call(&h)
+	} else {
+		m := vhAutoCond[p[0]]
+		name = m.name
+		verifCase(name)
+		c := vhRichCond(p[1], vhOptMask&^ronly)
+		call := m.prepC()
+		h := c
+		r1 = call(&h)
+		c.condition.cfg.opt |= ronly
+		r2 = call(&h)
+	}
+	verifAssert(len(r1) == len(r2), "arity")
+	if len(r1) == len(r2) && name != "Stack.IsReadOnly" && name != "Condition.IsReadOnly" && name != "Stack.Addr" && name != "Condition.Addr" {
+		for i := range r1 {
+			verifAssert(vhResultSame(r1[i], r2[i]), "same-answer-read-only-or-not")
+		}
+	}
 	verifReach("end")
 }
